@@ -551,6 +551,12 @@ def finish_connect(w, s, box, dest):
         fail(w, "connect-without-accept", "%s connect(%r) returned, peer "
              "address %r, but no accept() produced that connection"
              % (s, dest, far))
+    if isinstance(dest, str) and server.group.name != dest:
+        # judged at the API: connect(name) must reach a socket bound under
+        # that name (whatever destination address the CONNECT PDU carried)
+        fail(w, "connect-reached-wrong-service", "%s connect(%r) was accepted"
+             " by the bind group at address %d bound under %r" % (
+                 s, dest, server.group.addr, server.group.name))
     if g is None or (server.group is not g and not in_limbo):
         fail(w, "connect-reached-wrong-service", "%s connect(%r) was accepted"
              " by the bind group at address %d (name %r); the model has %s "
@@ -994,12 +1000,19 @@ OPS = {
     "close": st.tuples(st.just("close"), side_, idx_, st.booleans()),
     # a service as applications write it: named listener
     "service": st.tuples(st.just("service"), side_, name_()),
+    # a name that was resolved by the peer, released, and whose address is
+    # taken over by another service before the peer connects by that name
+    "stale": st.tuples(st.just("stale"), side_,
+                       st.integers(0, len(VALID) - 1),
+                       st.integers(0, len(VALID) - 1),
+                       st.sampled_from(["resolve", "resolve", "none"]),
+                       st.sampled_from(["other", "other", "none", "same"])),
 }
 WEIGHTS = (["x"] * 3 + ["pump"] * 6 + ["sock"] * 2 + ["bind"] * 6
            + ["open"] * 8 + ["openmany"] * 2 + ["listen"] * 3
            + ["connect"] * 6 + ["send"] * 3 + ["recv"] * 3 + ["sendto"] * 5
            + ["recvfrom"] * 3 + ["ldlconnect"] + ["resolve"] * 5
-           + ["close"] * 9 + ["service"] * 5)
+           + ["close"] * 9 + ["service"] * 5 + ["stale"] * 3)
 
 
 @st.composite
@@ -1013,6 +1026,22 @@ def machine_case(draw, max_steps):
             _, side, name = o
             ops += [["sock", side, "dlc"], ["bind", side, -1, name, False],
                     ["listen", side, -1, 1]]
+        elif o[0] == "stale":
+            _, side, i1, i2, look, rebind = o
+            peer = "b" if side == "a" else "a"
+            n1 = VALID[i1]
+            n2 = {"other": VALID[i2], "same": n1}.get(rebind)
+            v1 = NAME_POOL.index(n1)
+            ops += [["sock", side, "dlc"], ["bind", side, -1, n1, False],
+                    ["listen", side, -1, 1], ["pump", side]]
+            if look == "resolve":
+                ops += [["resolve", peer, v1], ["pump", side], ["pump", side]]
+            ops += [["close", side, -1, False], ["pump", side]]
+            if n2 is not None:
+                ops += [["sock", side, "dlc"], ["bind", side, -1, n2, False],
+                        ["listen", side, -1, 1]]
+            ops += [["connect", peer, 0, "name", v1], ["pump", side],
+                    ["pump", side]]
         else:
             ops.append(list(o))
     return {"miu": [draw(st.sampled_from([128, 248, 2175])),
